@@ -68,6 +68,7 @@ async fn well_formed_messages_never_stop_the_routing_thread() {
     let mut cases: Vec<(String, u64, Vec<u8>)> = vec![
         ("a block message".to_string(), 7, block_message),
         ("a ping".to_string(), 7, Message::Ping().serialize()),
+        ("a ghost-chain request from a peer that has not completed the handshake".to_string(), 7, Message::GhostChainRequest(1, [4u8; 32], [0u8; 32]).serialize()),
     ];
     for n in 0..400 { cases.push((format!("key-list update #{} from the same peer", n + 1), 7, key_list.clone())); }
     for (what, peer_index, buffer) in cases {
